@@ -19,8 +19,8 @@ pub fn def() -> CheckDef {
         info: CheckInfo {
             id: "C16",
             level: "exploration",
-            rule: "one seeded run = one generated tree whose symlinks point at sentinel files and directories beside the restore destination (relative '../outside/..', absolute, '..', '.', at directories, at other entries of the tree, dangling), one or two complete versions through the simulated store, then restores into box/dest of every version with drawn subtree / exclusion selections and the destination absent, empty or pre-populated (with and without overwrite). Oracle: a recursive lstat+content snapshot of box/ minus dest/ (content, mode, owner, mtime of every sentinel, of outside/ and of box/ itself) is identical before and after; without overwrite a non-empty destination gives DestinationNotEmpty and is byte- and metadata-identical afterwards. Non-trivial: the restored selection contains a symlink whose target resolves to an existing sentinel; distinct = (tree hash, selection, destination state).",
-            assumptions: &["only complete versions written by Conserve itself are restored (the property's quantifier); interrupted versions whose stitched listing mixes a symlink with children of the same path are out of scope"],
+            rule: "one seeded run = one generated tree whose symlinks point at sentinel files and directories beside the restore destination (relative '../outside/..', absolute, '..', '.', at directories, at other entries of the tree, dangling), one or two complete versions through the simulated store, (one run in five: a second version in which a directory was replaced by a symlink pointing outside and whose backup was killed right before its tail), then restores into box/dest of every version with drawn subtree / exclusion selections and the destination absent, empty or pre-populated (with and without overwrite). Oracle: a recursive lstat+content snapshot of box/ minus dest/ (content, mode, owner, mtime of every sentinel, of outside/ and of box/ itself) is identical before and after; without overwrite a non-empty destination gives DestinationNotEmpty and is byte- and metadata-identical afterwards. Non-trivial: the restored selection contains a symlink whose target resolves to an existing sentinel; distinct = (tree hash, selection, destination state).",
+            assumptions: &["one run in five restores an INTERRUPTED version built so that its stitched listing holds a symlink from the newer band and the old directory's contents from the older one ('any version of any conserve-written archive')"],
             real: super::REAL_COMPONENTS,
             stub: super::STUB_COMPONENTS,
         },
@@ -78,6 +78,27 @@ fn generate(seed: u64, tier: Tier) -> Scenario {
         }
     }
     let mut steps = vec![Step::Edit(b1), Step::Backup { opts: opts.clone(), plan: FaultPlan::none() }];
+    if r.chance(1, 5) {
+        // "any version" includes interrupted ones: a directory of the first version is replaced
+        // by a symlink that points outside, everything else below the root goes away, and the
+        // second backup is killed right before its tail; the stitched listing then holds the
+        // link from the new band and the old directory's contents from the old one.
+        let victim = model.dirs().into_iter().find(|d| d != "/" && d.matches('/').count() == 1 && model.subtree_keys(d).len() > 1);
+        if let Some(d) = victim {
+            let mut es: Vec<EditOp> = model.dirs().into_iter().filter(|x| x != "/" && x.matches('/').count() == 1).map(|x| EditOp::Remove { path: x }).collect();
+            let mut meta = g.meta(&cfg, false);
+            meta.mode = 0o777;
+            let target = if r.chance(1, 2) { "../outside/d".to_string() } else { format!("{BOX}/outside/d") };
+            es.push(EditOp::Put { path: d.clone(), node: TNode { kind: NodeKind::Symlink { target }, meta } });
+            steps.push(Step::Edit(es));
+            let mut plan = FaultPlan::none();
+            plan.crash_on = Some(("write".into(), "*BANDTAIL".into()));
+            let mut o2 = opts.clone();
+            o2.max_entries_per_hunk = 2;
+            steps.push(Step::Backup { opts: o2, plan });
+            return Scenario { check: "C16".into(), seed, env, root_meta, steps, params: serde_json::json!({"restores": 2, "rseed": r.next_u64(), "interrupted": true}) };
+        }
+    }
     if r.chance(1, 3) {
         let b2 = g.burst(&model, &cfg, 1 + r.usize(4));
         steps.push(Step::Edit(b2));
@@ -157,7 +178,16 @@ fn execute(sc: &Scenario, acc: &mut Acc) -> Result<Vec<Violation>, String> {
         };
         exec_step(&mut w, &step2, acc, false)?;
     }
-    let complete = w.complete_versions();
+    let mut complete = w.complete_versions();
+    let with_interrupted = sc.params.get("interrupted").and_then(|v| v.as_bool()).unwrap_or(false);
+    if with_interrupted {
+        // only the interrupted band(s): that is what this family is about
+        let inter: Vec<u32> = w.versions.iter().filter(|(_, v)| v.state == crate::world::VState::Interrupted).map(|(k, _)| *k).collect();
+        if !inter.is_empty() {
+            complete = inter;
+            acc.hit("interrupted_version_restored");
+        }
+    }
     if complete.is_empty() {
         return Ok(out);
     }
@@ -185,7 +215,8 @@ fn execute(sc: &Scenario, acc: &mut Acc) -> Result<Vec<Violation>, String> {
         if !exclude.is_empty() {
             acc.hit("exclude_selection");
         }
-        let dest_state = r.below(4); // 0 absent, 1 empty, 2 pre-populated no overwrite, 3 pre-populated + overwrite
+        let (subtree, exclude) = if with_interrupted { (None, vec![]) } else { (subtree, exclude) };
+        let dest_state = if with_interrupted { r.below(2) } else { r.below(4) }; // 0 absent, 1 empty, 2 pre-populated no overwrite, 3 pre-populated + overwrite
         match dest_state {
             0 => acc.hit("dest_absent"),
             1 => std::fs::create_dir(&dest).map_err(|e| e.to_string())?,
@@ -237,7 +268,24 @@ fn execute(sc: &Scenario, acc: &mut Acc) -> Result<Vec<Violation>, String> {
             Outcome::Panicked(_) | Outcome::Hung => out.push(Violation::new(prop, "restore_completes", outcome_disc(&rr.outcome), format!("{what}: {}", outcome_text(&rr.outcome)))),
             _ => {}
         }
+        // is this the stitched listing of an interrupted band that holds a symlink from the
+        // newer band and entries below the same path from the older one?
+        let mixed = with_interrupted && {
+            let view = w.view();
+            let l = crate::format::ref_stitch(&view, band);
+            l.iter().any(|(_, e)| e.kind == "Symlink" && l.iter().any(|(_, q)| q.apath.starts_with(&format!("{}/", e.apath))))
+        };
         for m in tree::compare_snaps(&before, &after, tree::CmpOpts::default()) {
+            if mixed {
+                acc.hit("interrupted_version_wrote_outside");
+                out.push(Violation::new(
+                    prop,
+                    "nothing_outside_destination_changes",
+                    "interrupted_version:written_through_symlink_of_newer_band",
+                    format!("{what}: box{} {}: {}", m.path, m.field, m.detail),
+                ));
+                break;
+            }
             out.push(Violation::new(
                 prop,
                 "nothing_outside_destination_changes",
